@@ -4,6 +4,7 @@ import (
 	"go/ast"
 	"go/token"
 	"go/types"
+	"strings"
 
 	"verifcheck/core"
 )
@@ -17,6 +18,86 @@ func init() {
 
 func extraC08(c *Ctx) {
 	ruleCopySkipIsSameContent(c, "C08-R11")
+
+	rule := "C08-R12"
+	c.Rule(rule, "Resolve answers from the manifest file, every time: each success return of DiskCache.Resolve hands back either the digest parsed out of a name@digest argument or the digest readAndSum computed, in this call, of the file manifestPath(name) names — never a remembered value (manifests change behind the cache's back, and names are matched case-insensitively on disk, so a memo keyed by the spelling goes stale on a relink under another spelling)")
+	if f := c.Fn(rule, blobPkg, "DiskCache.Resolve"); f != nil {
+		info := f.Info()
+		g := c.G(f)
+		var pathVars, sumVars []types.Object
+		for _, h := range g.FindCalls(blobPkg + ".DiskCache.manifestPath") {
+			if o := core.ResultVar(info, h.Top, h.Node.(*ast.CallExpr), 0); o != nil {
+				pathVars = append(pathVars, o)
+			}
+		}
+		for _, h := range g.FindCalls(blobPkg + ".readAndSum") {
+			call := h.Node.(*ast.CallExpr)
+			for _, pv := range pathVars {
+				if len(call.Args) > 0 && isIdentOf(info, call.Args[0], pv) {
+					if o := core.ResultVar(info, h.Top, call, 1); o != nil {
+						sumVars = append(sumVars, o)
+					}
+				}
+			}
+		}
+		c.Expect(rule, "digest computed from the manifest file in Resolve", len(sumVars), 1)
+		n := 0
+		for _, ex := range g.Returns() {
+			if g.ReturnKind(ex) != core.RetSuccess && g.ReturnKind(ex) != core.RetUnknown {
+				continue
+			}
+			e := g.ReturnedExpr(ex, 0)
+			if e == nil {
+				continue
+			}
+			ok := false
+			if call, isC := ast.Unparen(e).(*ast.CallExpr); isC && core.CalleeName(info, call) == blobPkg+".ParseDigest" {
+				ok = true
+			}
+			for _, sv := range sumVars {
+				if isIdentOf(info, e, sv) {
+					ok = true
+				}
+			}
+			if cl, isL := ast.Unparen(e).(*ast.CompositeLit); isL && len(cl.Elts) == 0 {
+				continue // Digest{} next to an error
+			}
+			n++
+			c.Check(rule, f.Key()+" answer#"+itoa(n), c.Pos(ex.Return), ok, "the digest returned must be ParseDigest(<digest part of the name>) or the sum of the manifest file read in this call, not `"+core.ExprString(e)+"`")
+		}
+		c.Expect(rule, "digest-returning exits of Resolve", n, 2)
+	}
+
+	rule = "C08-R13"
+	c.Rule(rule, "closed inventory of removals in package blob: files are unlinked only by Import (its private temp file), Unlink (the manifest of the name) and copyNamedFile (after a failed Close of the file it just wrote); a blob's final path is otherwise never unlinked — a concurrent writer of the same digest may have it open, would finish into the orphaned inode and report a store that Get cannot find")
+	audited := map[string]int{"DiskCache.Import": 1, "DiskCache.Unlink": 1, "DiskCache.copyNamedFile": 1}
+	nrm := 0
+	for _, fn := range c.P.FuncsOf(blobPkg) {
+		if strings.HasSuffix(c.Pos(fn.Body), "_test.go") {
+			continue
+		}
+		got, pos := 0, ""
+		for _, call := range core.Calls(fn.Body, true) {
+			if n, _ := fsEffect(fn.Info(), call); n == "os.Remove" || n == "os.RemoveAll" {
+				got++
+				nrm++
+				if got > audited[fn.Name] && pos == "" {
+					pos = c.Pos(call)
+				}
+			}
+		}
+		if got > 0 {
+			c.Check(rule, fn.Key()+" removals", firstNonEmpty(pos, c.Pos(fn.Body)), got <= audited[fn.Name], "removal not in the audited inventory of this function (found "+itoa(got)+", audited "+itoa(audited[fn.Name])+")")
+		}
+	}
+	c.Expect(rule, "removal sites in package blob", nrm, 3)
+}
+
+func firstNonEmpty(a, b string) string {
+	if a != "" {
+		return a
+	}
+	return b
 }
 
 // ruleCopySkipIsSameContent: copyNamedFile may report success without writing only when the
